@@ -1,6 +1,7 @@
 package main
 
 import (
+	"go/types"
 	"strings"
 
 	"golang.org/x/tools/go/ssa"
@@ -50,8 +51,7 @@ func runC11(p *Program, r *Result) {
 	var wcall ssa.CallInstruction // the label comparison
 	var labelsV ssa.Value         // this recipient's labels
 	for _, c := range callsIn(enc) {
-		n := calleeName(c.Common())
-		if !(strings.HasSuffix(n, ".slicesEqual") || n == "slices.Equal") || len(c.Common().Args) != 2 || !loop.inLoop(c.Block()) {
+		if !isLabelComparison(p, c) || !loop.inLoop(c.Block()) {
 			continue
 		}
 		x, y := stripConv(c.Common().Args[0]), stripConv(c.Common().Args[1])
@@ -72,11 +72,25 @@ func runC11(p *Program, r *Result) {
 		return
 	}
 
+	cmpName := tb.Term(wcall.Value()).S // the comparison as it appears in facts
+	cmpFn := staticCallee(wcall.Common())
+	if cmpFn != nil && !p.inModule(cmpFn) {
+		cmpFn = nil
+	}
+
+	// the same value may be read more than once (a field of a result struct): values are the
+	// same when their terms are
+	labelsKey := tb.Term(labelsV).Key()
+	sameLabels := func(v ssa.Value) bool {
+		v = stripConv(v)
+		return v == labelsV || tb.Term(v).Key() == labelsKey
+	}
+	var refPhi *ssa.Phi
+
 	// ---- R11.1
 	r.Rule("R11.1", "labels of every recipient are compared with the first one's; mismatch is an error", 2)
 	{
 		// reference phi at the loop header
-		var refPhi *ssa.Phi
 		for _, in := range loop.Header.Instrs {
 			ph, ok := in.(*ssa.Phi)
 			if !ok {
@@ -86,12 +100,12 @@ func runC11(p *Program, r *Result) {
 				continue
 			}
 			for _, e := range ph.Edges {
-				if stripConv(e) == labelsV {
+				if sameLabels(e) {
 					refPhi = ph
 				}
 				if p2, ok := e.(*ssa.Phi); ok {
 					for _, e2 := range p2.Edges {
-						if stripConv(e2) == labelsV {
+						if sameLabels(e2) {
 							refPhi = ph
 						}
 					}
@@ -120,11 +134,11 @@ func runC11(p *Program, r *Result) {
 					if a.Kind != "call" || !a.Pol || len(a.Call.Args) != 2 {
 						return false
 					}
-					if !(strings.HasSuffix(a.Call.S, ".slicesEqual") || a.Call.S == "slices.Equal") {
+					if a.Call.S != cmpName {
 						return false
 					}
 					x, y := a.Call.Args[0].V, a.Call.Args[1].V
-					return (x == ssa.Value(refPhi) && stripConv(y) == labelsV) || (y == ssa.Value(refPhi) && stripConv(x) == labelsV)
+					return (x == ssa.Value(refPhi) && y != nil && sameLabels(y)) || (y == ssa.Value(refPhi) && x != nil && sameLabels(x))
 				})
 				// value flowing back into the reference phi
 				pred := pa.Blocks[len(pa.Blocks)-2]
@@ -138,7 +152,7 @@ func runC11(p *Program, r *Result) {
 				// this recipient's labels may themselves be a merge (the two wrap branches)
 				lvPath := pa.ResolveAt(labelsV, len(pa.Blocks)-2)
 				switch {
-				case first && (stripConv(back) == labelsV || stripConv(back) == stripConv(lvPath)):
+				case first && (sameLabels(back) || stripConv(back) == stripConv(lvPath) || tb.Term(stripConv(back)).Key() == tb.Term(stripConv(lvPath)).Key()):
 				case !first && equal && back == ssa.Value(refPhi):
 				case first:
 					bad = "on the first iteration the reference is not set to this recipient's labels (path " + pa.String() + ")"
@@ -161,7 +175,7 @@ func runC11(p *Program, r *Result) {
 		for _, ret := range returnsOf(enc) {
 			facts := tb.FactsAt(ret.Block())
 			if _, ok := findFact(facts, func(a Atom) bool {
-				return a.Kind == "call" && !a.Pol && (strings.HasSuffix(a.Call.S, ".slicesEqual") || a.Call.S == "slices.Equal")
+				return a.Kind == "call" && !a.Pol && a.Call.S == cmpName
 			}); ok {
 				found = true
 				r.Check(isNilConst(ret.Results[0]) && !isNilConst(ret.Results[1]), enc.String(), "mismatch-return", r.pos(ret), "error, nil writer", "label mismatch does not return (nil, error)")
@@ -176,37 +190,36 @@ func runC11(p *Program, r *Result) {
 	r.Rule("R11.2", "labels are sorted before they are stored or compared", 1)
 	{
 		var sortCall ssa.CallInstruction
-		for _, c := range callsToAny(enc, "sort.Strings", "slices.Sort") {
-			if stripConv(c.Common().Args[0]) == labelsV {
+		for _, c := range callsIn(enc) {
+			n := calleeName(c.Common())
+			if !(n == "sort.Strings" || n == "slices.Sort" || strings.HasPrefix(n, "slices.Sort[")) || len(c.Common().Args) != 1 {
+				continue
+			}
+			if sameLabels(c.Common().Args[0]) {
 				sortCall = c
 			}
 		}
 		ok := sortCall != nil
 		if ok {
-			for _, ref := range *labelsV.Referrers() {
-				in, isIn := ref.(ssa.Instruction)
-				if !isIn || in == sortCall.(ssa.Instruction) {
-					continue
-				}
-				if _, isDbg := in.(*ssa.DebugRef); isDbg {
-					continue
-				}
-				if !dominatesInstr(sortCall.(ssa.Instruction), in) {
-					ok = false
-				}
+			// the comparison, and every edge on which these labels become the reference
+			if !dominatesInstr(sortCall.(ssa.Instruction), wcall.(ssa.Instruction)) && !p.feasDominates(sortCall.Block(), wcall.Block()) {
+				ok = false
 			}
-			// Phi uses: the sort must dominate the predecessor block of the edge
-			for _, ref := range *labelsV.Referrers() {
-				if ph, isPhi := ref.(*ssa.Phi); isPhi {
-					for k, e := range ph.Edges {
-						if e == labelsV {
-							pb := ph.Block().Preds[k]
-							if !(sortCall.Block() == pb || sortCall.Block().Dominates(pb)) {
-								ok = false
-							}
+			var edges func(ph *ssa.Phi, depth int)
+			edges = func(ph *ssa.Phi, depth int) {
+				for k, e := range ph.Edges {
+					if sameLabels(e) {
+						pb := ph.Block().Preds[k]
+						if !p.feasDominates(sortCall.Block(), pb) {
+							ok = false
 						}
+					} else if p2, isPhi := e.(*ssa.Phi); isPhi && p2 != ph && depth < 2 {
+						edges(p2, depth+1)
 					}
 				}
+			}
+			if refPhi != nil {
+				edges(refPhi, 0)
 			}
 		}
 		pos := ""
@@ -250,7 +263,14 @@ func runC11(p *Program, r *Result) {
 
 	// ---- R11.4
 	r.Rule("R11.4", "label-set comparison is length plus element-wise equality", 1)
-	if se := p.Func(pkgAge, "", "slicesEqual"); se != nil {
+	se := cmpFn
+	if se == nil {
+		se = p.Func(pkgAge, "", "slicesEqual")
+		if se != nil && len(p.Callers(se)) == 0 {
+			se = nil // no longer used: whatever Encrypt calls decides
+		}
+	}
+	if se != nil {
 		r.Saw(se.String())
 		stb := p.TB(se)
 		ok := true
@@ -277,7 +297,13 @@ func runC11(p *Program, r *Result) {
 			facts := stb.FactsAt(ret.Block())
 			if k.Value.ExactString() == "true" {
 				nTrue++
-				_, lenEq := hasFactShort(facts, "len(P1) == len(P2)")
+				_, lenEq := findFact(facts, func(a Atom) bool {
+					if a.Kind != "cmp" || a.Op != "==" || !isLenTerm(a.X) || !isLenTerm(a.Y) {
+						return false
+					}
+					x, y := a.X.Args[0].V, a.Y.Args[0].V
+					return (x == ssa.Value(se.Params[0]) && y == ssa.Value(se.Params[1])) || (x == ssa.Value(se.Params[1]) && y == ssa.Value(se.Params[0]))
+				})
 				if !lenEq || l == nil || !(ret.Block() == l.Exit || l.Exit.Dominates(ret.Block())) {
 					ok, detail = false, "true is returned without equal lengths and a completed element loop"
 				}
@@ -291,7 +317,16 @@ func runC11(p *Program, r *Result) {
 					continue
 				}
 				facts := stb.FactsAt(ret.Block())
-				if _, f := hasFactShort(facts, "Elem(P1, (RangeIdx#1 + 1)) != Elem(P2, (RangeIdx#1 + 1))"); f {
+				if _, f := findFact(facts, func(a Atom) bool {
+					if a.Kind != "cmp" || a.Op != "!=" || a.X.Op != "Elem" || a.Y.Op != "Elem" || len(a.X.Args) != 2 || len(a.Y.Args) != 2 {
+						return false
+					}
+					x, y := a.X.Args[0].V, a.Y.Args[0].V
+					if !((x == ssa.Value(se.Params[0]) && y == ssa.Value(se.Params[1])) || (x == ssa.Value(se.Params[1]) && y == ssa.Value(se.Params[0]))) {
+						return false
+					}
+					return a.X.Args[1].Key() == a.Y.Args[1].Key()
+				}); f {
 					if k, isC := ret.Results[0].(*ssa.Const); isC && k.Value.ExactString() == "false" {
 						found = true
 					}
@@ -307,7 +342,12 @@ func runC11(p *Program, r *Result) {
 		r.Check(ok, se.String(), "shape", "", "len check, full loop, element inequality returns false, true only after the loop", detail)
 	} else {
 		// slices.Equal from the standard library is accepted
-		used := len(callsTo(enc, "slices.Equal")) > 0
+		used := false
+		for _, c := range callsIn(enc) {
+			if isSlicesEqualName(calleeName(c.Common())) {
+				used = true
+			}
+		}
 		r.Check(used, enc.String(), "shape", "", "uses slices.Equal", "neither age.slicesEqual nor slices.Equal found")
 	}
 
@@ -426,4 +466,40 @@ func flattenPhi(phi *ssa.Phi) []phiEdge {
 	}
 	rec(phi)
 	return out
+}
+
+// isSlicesEqualName: the module's slicesEqual or the standard library's (generic) slices.Equal.
+func isSlicesEqualName(n string) bool {
+	return strings.HasSuffix(n, ".slicesEqual") || n == "slices.Equal" || strings.HasPrefix(n, "slices.Equal[")
+}
+
+// isLabelComparison: a call that compares two label sets: the module's slicesEqual, the standard
+// library's slices.Equal, or a module function or method taking exactly two values whose
+// underlying type is []string and returning a bool (R11.4 decides whether it is an equality).
+func isLabelComparison(p *Program, c ssa.CallInstruction) bool {
+	cc := c.Common()
+	if len(cc.Args) != 2 || cc.IsInvoke() {
+		return false
+	}
+	if isSlicesEqualName(calleeName(cc)) {
+		return true
+	}
+	fn := staticCallee(cc)
+	if fn == nil || !p.inModule(fn) {
+		return false
+	}
+	res := fn.Signature.Results()
+	if res.Len() != 1 || !types.Identical(res.At(0).Type().Underlying(), types.Typ[types.Bool]) {
+		return false
+	}
+	for _, a := range cc.Args {
+		sl, ok := a.Type().Underlying().(*types.Slice)
+		if !ok {
+			return false
+		}
+		if b, ok := sl.Elem().Underlying().(*types.Basic); !ok || b.Kind() != types.String {
+			return false
+		}
+	}
+	return true
 }
